@@ -90,7 +90,9 @@ def history_oracle(schema, cfg, history, probe):
 
 def gen_call(g, schema, alt_schemas):
     r = g.r
-    api = r.choice(["validate", "validate", "validated", "normalized"])
+    api = r.choice(["validate", "validate", "validate", "validated", "normalized", "errors"])
+    if api == "errors":
+        return ("errors", None, {}, None)      # reading the rendered errors is part of a history too
     k = r.random()
     if k < 0.7:
         doc = g.doc_for(schema, p_present=0.7)
@@ -175,6 +177,8 @@ def run(ctx):
         alts = alts or [schema]
         history = [gen_call(g, schema, alts) for _ in range(g.r.randrange(1, 7))]
         probe = gen_call(g, schema, alts)
+        while probe[0] == "errors":            # the probe is a processing call
+            probe = gen_call(g, schema, alts)
         probe = (probe[0], probe[1], probe[2], None)
         if g.r.random() < 0.3:
             # the probe brings its own schema: one seen before, the validator's own, or a twin (equal under ==, different types)
@@ -221,7 +225,8 @@ def run(ctx):
              ("validate", {'q': 1}, {"update": True}, {'q': {'type': 'string'}}),
              ("validate", {'q': None}, {}, {'q': {'type': 'string', 'nullable': True, 'default': 1}})]
     # probes: the first five calls, and two per-call schemas that are twins (==, other types) of one used in the history
-    probes = calls[:5] + [("validate", {'q': None}, {}, {'q': {'type': 'string', 'nullable': 1, 'default': 1}}),
+    calls.append(("errors", None, {}, None))
+    probes = calls[:5] + [("validate", None, {}, None), ("validate", {'a': 1}, {}, {"bad": {"type": "nosuchtype"}}), ("validate", {'q': None}, {}, {'q': {'type': 'string', 'nullable': 1, 'default': 1}}),
                           ("validate", {}, {}, {'q': {'type': 'string', 'nullable': True, 'default': 1.0}})]
     maxlen = 3 if (thorough or ctx.get('searching')) else 2
     for L in range(1, maxlen + 1):
@@ -239,7 +244,7 @@ def run(ctx):
             "rule": "random histories of 1-6 calls (validate/validated/normalized, mixed update/normalize flags, valid and invalid documents, None and "
                     "non-mapping documents, accepted and rejected per-call schemas) on one instance followed by a probe, compared with the same probe on a "
                     "fresh instance of the schema in force: result, error keys, both trees node by node, processed document, rendered errors; plus all "
-                    "histories of length <= %d over a pool of 9 calls x 7 probes (two of them per-call schemas that are ==-twins of one used before) on a schema with coerce/readonly/excludes/nested default setters. "
+                    "histories of length <= %d over a pool of 10 calls (one of them reading the errors property) x 9 probes (two of them rejected before processing starts, (two of them per-call schemas that are ==-twins of one used before) on a schema with coerce/readonly/excludes/nested default setters. "
                     "Non-trivial = histories that completed without an undeclared exception." % maxlen}
 
 
